@@ -7,20 +7,10 @@ non-function, a parameter list that does not fit, an escaped tail call) and
 `XrayModel/CoreTyping.lean` (the annotated syntax the compiler sees, its erasure to the evaluator's
 syntax, the checker `check`/`checkProgram`, value typing `HasTy`/`EnvTy`).
 
-Full statements (kept here; the proved versions below carry one named hypothesis):
-
-  soundness     : checkProgram ds = some Γ → ∀ fuel cfg why st,
-                    runProgram fuel cfg (eraseDs ds) ≠ (.error (.stuck why), st)
-  preservation  : checkProgram ds = some Γ → runProgram fuel cfg (eraseDs ds) = (.ok fr, st) →
-                    EnvTy fr.env Γ        -- every top-level binding's value has its static type
-
 Proof: induction on fuel with the invariant `Inv n` (XrayProofs/CoreTypingStep1.lean) over all ten
-mutually recursive evaluator functions; the step lemmas for `eval`, `callNamed`, `callVal`,
-`evalList`, `mkClos`, `evalDflts`, `callUser`, `tramp` (frame creation, parameter/default binding,
-tail self-calls) and `evalDecls` are proved. The step for `builtin` (the natives the evaluator
-implements itself: `if`, `and`, `or`, `if_error`, `is_error`, `display` + the dispatch to the strict
-natives, whose table is `natives_sound`) is the hypothesis `BuiltinStep` of the `_partial` theorems:
-that is exactly what they exclude.
+mutually recursive evaluator functions (`eval`, `callNamed`, `callVal`, `evalList`, `mkClos`,
+`evalDflts`, `callUser`, `tramp`, `evalDecls`, `builtin`): one step lemma per function
+(XrayProofs/CoreTypingStep1-5.lean), assembled in XrayProofs/CoreTypingMain.lean.
 -/
 import XrayProofs.CoreTypingMain
 namespace XrayModel.C01
@@ -38,20 +28,18 @@ example : primTy "mod" [.int, .unk] = some .int := by simp [primTy, sub]
 
 /-- Soundness: a program the checker accepts never gets stuck, for every amount of fuel and every
 limit configuration (depth / call / recursion limits, tail calls on or off): it ends in values
-and error values, in a violation handed to the host, or is still running.
-(`_partial`: modulo `BuiltinStep`, see the header.) -/
-theorem soundness_partial (hB : BuiltinStep) {ds : List TDecl} {Γ : TyEnv} (h : checkProgram ds = some Γ)
+and error values, in a violation handed to the host, or is still running. -/
+theorem soundness {ds : List TDecl} {Γ : TyEnv} (h : checkProgram ds = some Γ)
     (fuel : Nat) (cfg : Cfg) (why : String) (st : St) :
     runProgram fuel cfg (eraseDs ds) ≠ (.error (.stuck why), st) :=
-  program_not_stuck hB h fuel cfg why st
+  program_not_stuck h fuel cfg why st
 
 /-- Preservation: when an accepted program has been instantiated, the value of every top-level
-binding has the shape of the static type the checker assigned to it (same names, same order).
-(`_partial`: modulo `BuiltinStep`, see the header.) -/
-theorem preservation_partial (hB : BuiltinStep) {ds : List TDecl} {Γ : TyEnv} (h : checkProgram ds = some Γ)
+binding has the shape of the static type the checker assigned to it (same names, same order). -/
+theorem preservation {ds : List TDecl} {Γ : TyEnv} (h : checkProgram ds = some Γ)
     (fuel : Nat) (cfg : Cfg) (fr : Frame) (st : St)
     (hr : runProgram fuel cfg (eraseDs ds) = (.ok fr, st)) : EnvTy fr.env Γ :=
-  program_preserves hB h fuel cfg fr st hr
+  program_preserves h fuel cfg fr st hr
 
 /-- the hypotheses are satisfiable: a recursive function with an optional parameter is accepted -/
 example : (checkProgram [.fnD (.mk (some "f") [.mk "a" .int none, .mk "b" .str (some (.str "q"))] (some .int) []
